@@ -215,6 +215,7 @@ type VGroup struct {
 	Count     int               `json:"count"`
 	Decisions []int             `json:"decisions"`
 	Model     map[string]string `json:"model,omitempty"`
+	AltModels []map[string]string `json:"alt_models,omitempty"`
 	Chooses   [][2]string       `json:"chooses,omitempty"`
 	Schedule  []SchedEv         `json:"schedule,omitempty"`
 	Events    []string          `json:"events,omitempty"`
@@ -231,6 +232,7 @@ type PathSample struct {
 	Events    []string          `json:"events"`
 	Covers    []string          `json:"covers,omitempty"`
 	Model     map[string]string `json:"model,omitempty"`
+	AltModels []map[string]string `json:"alt_models,omitempty"`
 	Chooses   [][2]string       `json:"chooses,omitempty"`
 	Schedule  []SchedEv         `json:"schedule,omitempty"`
 	Vector    []int             `json:"vector,omitempty"`
@@ -464,7 +466,7 @@ func (e *Engine) explore(fn *ssa.Function) *Result {
 						sig := v.ID + "|" + v.Site
 						g := groups[sig]
 						if g == nil {
-							g = &VGroup{ID: v.ID, Site: v.Site, Detail: v.Detail, Decisions: append([]int(nil), w.taken...), Model: v.Model,
+							g = &VGroup{ID: v.ID, Site: v.Site, Detail: v.Detail, Decisions: append([]int(nil), w.taken...), Model: v.Model, AltModels: v.AltModels,
 								Chooses: w.chooseLog, Schedule: w.sched, Events: w.events, Now: v.Now, Resumes: w.resumes}
 							groups[sig] = g
 						} else if len(w.taken) < len(g.Decisions) {
